@@ -27,7 +27,7 @@ mod tree;
 fn main() {
     // Deep trees (e.g. built by a looping parser before the step budget stops it) are dropped
     // recursively by the runtime's own types: give the worker a large stack (virtual memory only).
-    let h = std::thread::Builder::new().stack_size(512 << 20).spawn(real_main).expect("spawn worker thread");
+    let h = std::thread::Builder::new().stack_size(std::env::var("VH_STACK_MB").ok().and_then(|v| v.parse::<usize>().ok()).unwrap_or(512) << 20).spawn(real_main).expect("spawn worker thread");
     if h.join().is_err() {
         std::process::exit(101);
     }
